@@ -107,7 +107,7 @@ fn rt_check<T: Acc + Serialize + DeserializeOwned + PartialEq>(p: &Pool<T>, s: &
 }
 
 fn run_type<T: Acc + Serialize + DeserializeOwned + PartialEq>(tier: Tier, cheap: bool, s: &mut Sink, totals: &mut (u64, u64), notes: &mut Vec<Value>) {
-    let prm = Params { max_regs: 2, max_obs: 6, depth: if cheap { tier.pick(5, 7) } else { tier.pick(3, 4) }, max_states: 5_000_000, chunk_alpha: CHUNK_ALPHA };
+    let prm = Params { max_regs: 2, max_obs: 6, depth: if cheap { tier.pick(5, 10) } else { tier.pick(3, 6) }, max_states: 5_000_000, chunk_alpha: CHUNK_ALPHA };
     let st = search_with::<T>(&prm, &|p, sink| rt_check::<T>(p, sink), s);
     totals.0 += st.states;
     totals.1 += st.transitions;
@@ -312,7 +312,7 @@ fn main() {
     s.sample(json!({"check":"feature-set","sets":["default","std","std,approx","std,serde","all features"],"how":"cargo build --lib --offline of /repo's working tree for each"}));
     s.sample(json!({"check":"roundtrip","type":"Arithmetic<f32>","history":["FromIter([0.1, 1048576.0])","Append(0, -2.5)"],"formats":["CBOR","JSON(float_roundtrip)","TOML"],"invariant":"restored == original, identical Debug (compensation terms included), identical statistics, identical continuations (append of every alphabet value, self-merge, cross-merge)"}));
     s.sample(json!({"check":"value","what":"Interval<f64>","value":"TwoSided(-0.0, 5e-324)","formats":["CBOR","JSON","TOML"]}));
-    rep.rule = format!("configurations: the five advertised feature sets built from the working tree; round trip: BFS over pools of <=2 real registers to depth {} ({} for proportion::Stats) for Arithmetic/Geometric/Harmonic/Paired/Unpaired x f64,f32 and proportion::Stats, with every register of EVERY reachable state serialized and restored through CBOR, JSON and TOML and compared (==, Debug, all observers, one-step continuations); plus every Confidence over 12 levels x 3 kinds and Interval<f64|i32|String|usize> over value chains; distinct by (type, format, non-zero compensation)", tier.pick(3, 4), tier.pick(5, 7));
+    rep.rule = format!("configurations: the five advertised feature sets built from the working tree; round trip: BFS over pools of <=2 real registers to depth {} ({} for proportion::Stats) for Arithmetic/Geometric/Harmonic/Paired/Unpaired x f64,f32 and proportion::Stats, with every register of EVERY reachable state serialized and restored through CBOR, JSON and TOML and compared (==, Debug, all observers, one-step continuations); plus every Confidence over 12 levels x 3 kinds and Interval<f64|i32|String|usize> over value chains; distinct by (type, format, non-zero compensation)", tier.pick(3, 6), tier.pick(5, 10));
     rep.assume("JSON cannot represent non-finite floats: such values are round-tripped through CBOR and TOML only (counted as skipped for JSON)");
     rep.assume("serde_json (float_roundtrip), toml 0.8 and ciborium are trusted to round-trip the primitives they are given");
     // (only meaningful while the Debug rendering exposes the compensation term by that name)
